@@ -13,12 +13,12 @@ solver inside the bound (list construction and islice need concrete sizes).
 from typing import List
 import billiard.pool as bp
 from billiard.einfo import RemoteTraceback
-from harness.hbase import fail, tier, Prune, ND, PART, NPART, untraced, realize
+from harness.hbase import fail, tier, Prune, ND, PART, NPART, untraced, realize, THOROUGH
 from harness import world as W
 
-NMAX = tier(4, 6)
-CMAX = tier(3, 7)
-K = tier(6, 8)
+NMAX = tier(3, 5)
+CMAX = tier(2, 6)
+K = tier(2, 5)
 KINDS = ('map', 'starmap', 'imap', 'imapu', 'apply')
 
 
@@ -160,12 +160,16 @@ def _scenario(kind, n, c, p_size, bad, ev, want):
 
 
 def _pre(n, c, bad, ev):
-    return 0 <= n <= NMAX and 0 <= c <= CMAX and 0 <= bad < 2 ** NMAX and len(ev) == K
+    return (0 <= n <= NMAX and 0 <= c <= CMAX and 0 <= bad < 2 ** NMAX and len(ev) == K + 1 and 0 <= ev[K] <= 1
+            and (THOROUGH or bad in (0, 1, 2, 4)))          # quick: at most one raising position
 
 
 def _go(n, c, bad, ev, want):
+    # NPART = 5 * (NMAX + 1): job kind x input length; the pool size is the parity of the chunk-size argument's partner
     kind = KINDS[PART % 5]
-    p_size = 1 + (PART // 5) % 2
+    if n != (PART // 5) % (NMAX + 1):
+        return True
+    p_size = 1 + (1 if ev[len(ev) - 1] % 2 else 0)
     if kind in ('imap', 'imapu', 'apply') and c != 0:
         return True           # no chunking for these (imap with chunksize > 1 returns a flattening generator: outside)
     try:
